@@ -754,7 +754,7 @@ def _dotted(e):
 
 
 def _inline_new_constants(tree, relpath):
-    known = set(_reference().get(relpath, {}).get('constants', [])) if _reference() else None
+    known = set(_reference().get(relpath, {}).get('constants', [])) if _reference() and relpath in _reference() else None
     if known is None:
         return
     consts = {}        # (class name or '', name) -> literal expr
@@ -964,8 +964,8 @@ def _stmt_heads(st):
 
 def _inline_new_helpers(tree, relpath):
     ref = _reference()
-    if not ref:
-        return
+    if not ref or relpath not in ref:
+        return          # a unit the table has never seen has no reference to be relative to
     known = set(ref.get(relpath, {}).get('functions', []))
     helpers = {}     # ('Class' or '', name) -> FunctionDef
 
@@ -1167,6 +1167,7 @@ def _inline_new_helpers(tree, relpath):
                 for node, f_ in heads:
                     setattr(node, f_, rep.visit(getattr(node, f_)))
                 if rep.done == 1:
+                    h._verif_inlined = getattr(h, '_verif_inlined', 0) + 1
                     for x in ast.walk(e):
                         if isinstance(x, (ast.stmt, ast.expr)):
                             ast.copy_location(x, n)
@@ -1233,6 +1234,7 @@ def _inline_new_helpers(tree, relpath):
             res = hoist(st, n, par if awaited else None, h, key, whole)
             if res is None:
                 continue
+            h._verif_inlined = getattr(h, '_verif_inlined', 0) + 1
             out = []
             for s_ in res:
                 sub = expand(s_, cls, depth + 1) if s_ is not st else None
@@ -1264,9 +1266,12 @@ def _inline_new_helpers(tree, relpath):
         for h in getattr(node, 'handlers', []) or []:
             rewrite(h, cls)
     rewrite(tree, '')
-    # a helper every call of which was inlined is no longer part of the program
+    # a private helper every call of which was inlined is no longer part of the program (a public name may be used from
+    # other units, and a helper nobody called here was not "inlined away")
     for (cls, name), h in helpers.items():
         orig = h._verif_orig
+        if not name.startswith('_') or not getattr(h, '_verif_inlined', 0):
+            continue
         inside = {id(x) for x in ast.walk(orig)}
         used = False
         for x in ast.walk(tree):
